@@ -115,6 +115,9 @@ func checkC01(c *CheckCtx) error {
 	if err := c.randomFraming(c.pick(60, 1000), allAPIs, []string{"ci", "default", "update", "clean"}, 0.3, "q"); err != nil {
 		return err
 	}
+	if err := c.repro(hugeLine()...); err != nil {
+		return err
+	}
 	// a run whose Clean legitimately rewrites files (sorting, pruning) in between: the recorded
 	// values must still replay in a following read-only run
 	return c.randomClean(c.pick(60, 1000), "w", []string{"default", "clean", "update"},
@@ -161,7 +164,37 @@ func checkC03(c *CheckCtx) error {
 	if err := c.replayModel("Gen_Framing_sfx.cfg", 0, 0, "mx", 0); err != nil {
 		return err
 	}
+	if err := c.repro(crlfCheckout()...); err != nil {
+		return err
+	}
+	if err := c.repro(hugeLine()...); err != nil {
+		return err
+	}
 	return c.randomFraming(c.pick(160, 3000), allAPIs, []string{"default", "ci", "update", "other"}, 0.4, "r")
+}
+
+// crlfCheckout: a snapshot file that was checked out with CRLF line endings still addresses the
+// same slots: replay passes, an update rewrites only its entry, new entries are appended.
+func crlfCheckout() []*Scenario {
+	lf := "\n[TestA - 1]\nalpha\n---\n\n[TestA - 2]\ntwo\nlines\n---\n\n[TestB - 1]\nbeta\n---\n"
+	var out []*Scenario
+	for i, mode := range []string{"update", "default"} {
+		sc := &Scenario{ID: fmt.Sprintf("crlf%d", i), Configs: stdConfigs(), Program: []string{"TestA", "TestB", "TestC"}}
+		sc.Init = append(sc.Init, InitFile{P: "snaps/main_test.snap", Content: []byte(strings.ReplaceAll(lf, "\n", "\r\n")), Role: "multi", CRLF: true})
+		t := func(name string, vals ...string) []*Step {
+			st := []*Step{{Op: "begin", Name: name}}
+			for _, v := range vals {
+				st = append(st, &Step{Op: "match", Name: name, API: "snapshot", Cfg: "c", Val: strVal(v)})
+			}
+			return append(st, &Step{Op: "end", Name: name})
+		}
+		sc.Procs = append(sc.Procs, &Proc{Spec: procSpec("ci"), Steps: append(t("TestA", "alpha", "two\nlines"), t("TestB", "beta")...)})
+		sc.Procs = append(sc.Procs, &Proc{Spec: procSpec(mode), Steps: append(t("TestA", "alpha CHANGED", "two\nlines"), t("TestC", "new")...)})
+		sc.Procs = append(sc.Procs, &Proc{Spec: procSpec("ci"), Steps: append(append(t("TestA", "alpha", "two\nlines"), t("TestB", "beta")...), t("TestC", "new")...)})
+		sc.Note = "multi-entry file with CRLF line endings: replay, " + mode + " with one changed value and one new test, replay"
+		out = append(out, sc)
+	}
+	return out
 }
 
 func checkC04(c *CheckCtx) error {
